@@ -1,15 +1,16 @@
 #!/bin/sh
-# usage: seedconfirm.sh <worktree> <outdir> <pkgdir>  — confirms: with patch suite passes & demo fails; without patch demo passes
-wt=$1; out=$2; pkg=$3
+# usage: seedconfirm.sh <worktree> <outdir> <pkgdir> [race]  — confirms: with patch suite passes & demo fails; without patch demo passes
+wt=$1; out=$2; pkg=$3; race=$4
 export GOFLAGS=-mod=mod GOPROXY=off GOSUMDB=off GOTOOLCHAIN=local
 cd $wt || exit 2
-git checkout -q -- . 2>/dev/null; rm -f */zz_contracts_verif.go $pkg/zz_demo_test.go
+git checkout -q -- . 2>/dev/null; rm -f */zz_contracts_verif.go */*/zz_contracts_verif.go $pkg/zz_demo_test.go
 git apply $out/patch.diff || { echo "APPLY-FAIL"; exit 1; }
 go build ./... || { echo "BUILD-FAIL"; git checkout -q -- .; exit 1; }
 if go test -vet=off -count=1 ./... >/tmp/sc_suite.txt 2>&1; then s1=suite-pass; else s1=SUITE-FAIL; fi
 cp $out/demo_test.go $pkg/zz_demo_test.go
-if go test -vet=off -count=1 -timeout 120s ./$pkg/ >/tmp/sc_demo1.txt 2>&1; then d1=DEMO-PASSES-WITH-PATCH; else d1=demo-fails-with-patch; fi
-git checkout -q -- . ; rm -f */zz_contracts_verif.go
-if go test -vet=off -count=1 -timeout 120s ./$pkg/ >/tmp/sc_demo2.txt 2>&1; then d2=demo-passes-without; else d2=DEMO-FAILS-WITHOUT; fi
+rf=""; [ -n "$race" ] && rf="-race"
+if go test $rf -vet=off -count=1 -timeout 300s ./$pkg/ >/tmp/sc_demo1.txt 2>&1; then d1=DEMO-PASSES-WITH-PATCH; else d1=demo-fails-with-patch; fi
+git checkout -q -- . ; rm -f */zz_contracts_verif.go */*/zz_contracts_verif.go
+if go test $rf -vet=off -count=1 -timeout 300s ./$pkg/ >/tmp/sc_demo2.txt 2>&1; then d2=demo-passes-without; else d2=DEMO-FAILS-WITHOUT; fi
 rm -f $pkg/zz_demo_test.go
 echo "$s1 $d1 $d2"
